@@ -184,4 +184,28 @@ def Mut.apply (mu : Mut) (b : Bytes) : Bytes :=
   | .ext s => b ++ s
   | .pre s => s ++ b
 
+/-! ### several calls on one stored buffer -/
+
+/-- one decryption request against the stored buffer: on the buffer itself, or on a tampered copy -/
+inductive SeqOp where
+  | onBuf (pw : Bytes)
+  | onCopy (mu : Mut) (pw : Bytes)
+
+/-- outcome of one request as a function of the CURRENT buffer contents; `f` is the single-call
+    function (`decrypt C`, or `fun d p => decryptPrivateKey C d p kt`) -/
+def SeqOp.outcome {α : Type} (f : Bytes → Bytes → Out α) (buf : Bytes) : SeqOp → Out α
+  | .onBuf pw => f buf pw
+  | .onCopy mu pw => f (mu.apply buf) pw
+
+/-- a sequence of calls threading the caller's buffer as state.  The Go functions read `data` and
+    the password only (`gcm.Open(nil, …)` allocates its output), so the buffer after a call is the
+    buffer before it.  Returns the outcomes and the final buffer contents. -/
+def runOps {α : Type} (f : Bytes → Bytes → Out α) : Bytes → List SeqOp → List (Out α) × Bytes
+  | buf, [] => ([], buf)
+  | buf, op :: rest =>
+    let o := op.outcome f buf
+    let buf' := buf
+    let r := runOps f buf' rest
+    (o :: r.1, r.2)
+
 end Gossamer.C37
